@@ -269,6 +269,14 @@ def hist (d : Date) : List String → List String → List String
     | .ok d' => hist d' ops (showDate d' :: acc)
     | .error e => hist d ops (e :: acc)      -- the date is unchanged after a failed op
 
+/-- the date a history ends with (failed ops leave the date unchanged) -/
+def histFinal (d : Date) : List String → Date
+  | [] => d
+  | op :: ops =>
+    match histStep d op with
+    | .ok d' => histFinal d' ops
+    | .error _ => histFinal d ops
+
 def withCal (t : String) (k : Calendar → String) : String :=
   match calOfTok t with
   | .ok c => k c
@@ -440,6 +448,18 @@ def answer (line : String) : String :=
       match i32? j with
       | some j => withDate c j fun d => joinWith " " (hist d ops [showDate d])
       | none => "BADREQ"
+  | "cmp_hist" :: c1 :: j1 :: rest =>
+      -- `cmp_hist C1 j1 ops1… / C2 j2 ops2…`: two histories, their final dates compared
+      let ops1 := rest.takeWhile (· != "/")
+      match rest.dropWhile (· != "/") with
+      | _ :: c2 :: j2 :: ops2 => withCal c1 fun a => withCal c2 fun b =>
+          match i32? j1, i32? j2 with
+          | some j1, some j2 => withDate a j1 fun d1 => withDate b j2 fun d2 =>
+              let x := histFinal d1 ops1
+              let y := histFinal d2 ops2
+              s!"{showOrd (x.cmp y)} {b01 (x.beq y)} {b01 (x.hashKey == y.hashKey)} {b01 (showDate x == showDate y)}"
+          | _, _ => "BADREQ"
+      | _ => "BADREQ"
   | ["chrono_from", y, m, d] =>
       match i32? y, u32? m, u32? d with
       | some y, some m, some d => Foreign.showFrom (Foreign.fromChrono y m d)
